@@ -582,6 +582,19 @@ Definition zdedup (l : list Z) : list Z := zdedup_from [] l.
 Definition is_min (m : Z) (l : list Z) : Prop := In m l /\ forall x, In x l -> m <= x.
 Definition is_max (m : Z) (l : list Z) : Prop := In m l /\ forall x, In x l -> x <= m.
 
+(* the values an aggregate ranges over: non-NULL, and each once for a distinct select *)
+Definition distinct_vals (d : bool) (vals : list (option Z)) : list Z :=
+  if d then zdedup (nonnull vals) else nonnull vals.
+(* the SQL function behind sum/min/max/avg *)
+Definition meth_f (m : aggmeth) : aggf :=
+  match m with MSum => FSUM | MMin => FMIN | MMax => FMAX | MAvg => FAVG end.
+(* select(w).filter(f1).filter(f2)...: the rows that satisfy all of them *)
+Definition chain_sat (w : wexpr) (ms : list mcall) (r : row) : bool :=
+  wsat w r && forallb (fun f => wsat f r) (filters_of ms).
+(* window ops as count() sees them *)
+Definition falsy (v : pv) : Prop := truthy v = false.
+Definition pv_of_opt (o : option Z) : pv := match o with Some z => VInt z | None => VNone end.
+
 (* Python list slicing with non-negative bounds: l[s:e] *)
 Definition window {A : Type} (s : Z) (e : option Z) (l : list A) : list A :=
   let t := skipn (Z.to_nat s) l in
